@@ -44,6 +44,126 @@ theorem fullCoeffsV_discrete (zl : Bool) (tol : Rat) (chans : List (List Rat × 
   have hne : ¬ (c.2.length = c.1.length) := by omega
   simp [Chan.norm, normCoeff, hne]
 
+/-! ## `get_full_coeffs` with control channels that carry no pulse -/
+
+theorem lookup_zip_map {β : Type} (ls : List ℕ) (G : ℕ → β) (l : ℕ) :
+    (ls.zip (ls.map G)).lookup l = if l ∈ ls then some (G l) else none := by
+  induction ls with
+  | nil => rfl
+  | cons a r ih =>
+    simp only [List.map_cons, List.zip_cons_cons, List.lookup_cons, List.mem_cons]
+    by_cases h : l = a
+    · subst h; simp
+    · have h' : (l == a) = false := by simpa using h
+      rw [h', ih]
+      by_cases hr : l ∈ r
+      · rw [if_pos hr, if_pos (Or.inr hr)]
+      · rw [if_neg hr, if_neg (by rintro (e | e); exact h e; exact hr e)]
+
+
+/-- a control channel of the processor: compiled grid/coefficients, or no pulse at all (`tlist is None and coeff is None`) -/
+def optChan : Option (List Rat × List Rat) → Chan
+  | none => .absent
+  | some c => .arr c.1 c.2
+
+/-- the row `get_full_coeffs` returns for it on the merged grid `T` -/
+def rowOf (T : List Rat) : Option (List Rat × List Rat) → List Rat
+  | none => T.map fun _ => 0
+  | some c => T.map (stepAt c.1 c.2)
+
+theorem optChan_grids (cs : List (Option (List Rat × List Rat))) :
+    (cs.map optChan).filterMap Chan.grid? = (cs.filterMap id).map (·.1) := by
+  induction cs with
+  | nil => rfl
+  | cons o rest ih =>
+    cases o with
+    | none => simp only [List.map_cons, optChan, List.filterMap_cons, Chan.grid?, id]; exact ih
+    | some c => simp only [List.map_cons, optChan, List.filterMap_cons, Chan.grid?, id, ih]
+
+/-- **`get_full_coeffs` (every variant) on a channel list with absent entries**: the merged grid is that of the channels that
+carry a pulse (`used`, in any order), a channel without pulse gets a row of zeros -/
+theorem fullCoeffsVW_mixed (zl w : Bool) (tol : Rat) (htol : 0 ≤ tol) (used : List (List Rat × List Rat))
+    (cs : List (Option (List Rat × List Rat))) (hmem : ∀ c, some c ∈ cs ↔ c ∈ used) (hne : used ≠ [])
+    (hgr : ∀ c ∈ used, C14.GoodGrid c.1) (hlen : ∀ c ∈ used, c.2.length + 1 = c.1.length)
+    (hsep : SepAll tol (used.map (·.1))) :
+    fullCoeffsVW zl w tol (cs.map optChan) =
+      .ok (sortU (used.map (·.1)).flatten, cs.map (rowOf (sortU (used.map (·.1)).flatten))) := by
+  set T := sortU (used.map (·.1)).flatten with hTdef
+  -- the padding variant does not touch these channels
+  have hnorm : (cs.map optChan).map (Chan.norm zl) = cs.map optChan := by
+    rw [List.map_map]
+    apply List.map_congr_left
+    intro o ho
+    cases o with
+    | none => rfl
+    | some c =>
+      have := hlen c ((hmem c).mp ho)
+      have hne2 : ¬ (c.2.length = c.1.length) := by omega
+      simp [optChan, Chan.norm, normCoeff, hne2]
+  -- the grids that enter the merged grid
+  have hmemG : ∀ g, g ∈ (cs.filterMap id).map (·.1) ↔ g ∈ used.map (·.1) := by
+    intro g
+    simp only [List.mem_map, List.mem_filterMap, id]
+    constructor
+    · rintro ⟨c, ⟨o, ho, rfl⟩, rfl⟩; exact ⟨c, (hmem c).mp ho, rfl⟩
+    · rintro ⟨c, hc, rfl⟩; exact ⟨c, ⟨some c, (hmem c).mpr hc, rfl⟩, rfl⟩
+  set G' := (cs.filterMap id).map (·.1) with hG'
+  obtain ⟨c0, hc0⟩ := List.exists_mem_of_ne_nil used hne
+  have hne' : G' ≠ [] := by
+    intro h
+    have : c0.1 ∈ G' := (hmemG c0.1).mpr (List.mem_map.mpr ⟨c0, hc0, rfl⟩)
+    rw [h] at this; simp at this
+  have hsep' : SepAll tol G' := by
+    intro g hg x hx g' hg' y hy hxy
+    exact hsep g ((hmemG g).mp hg) x hx g' ((hmemG g').mp hg') y hy hxy
+  have hTl := fullTlist_eq_sortU hne' hsep'
+  have hTeq : sortU G'.flatten = T := by
+    apply List.Pairwise.eq_of_mem_iff (sortU_pairwise _) (sortU_pairwise _)
+    intro x
+    rw [mem_sortU, mem_sortU, List.mem_flatten, List.mem_flatten]
+    constructor
+    · rintro ⟨g, hg, hx⟩; exact ⟨g, (hmemG g).mp hg, hx⟩
+    · rintro ⟨g, hg, hx⟩; exact ⟨g, (hmemG g).mpr hg, hx⟩
+  rw [hTeq] at hTl
+  have hgr' : ∀ g ∈ G', g.Pairwise (· < ·) ∧ g.head? = some 0 ∧ 2 ≤ g.length := by
+    intro g hg
+    obtain ⟨c, hc, rfl⟩ := List.mem_map.mp ((hmemG g).mp hg)
+    exact hgr c hc
+  have hvalid : valid (cs.map optChan) = true := by
+    simp only [valid, List.all_map, List.all_eq_true]
+    intro o ho
+    cases o with
+    | none => rfl
+    | some c =>
+      have := hlen c ((hmem c).mp ho)
+      simp [optChan]; left; omega
+  unfold fullCoeffsVW fullCoeffsW
+  rw [hnorm, hvalid]
+  have hTl' : fullTlist tol ((cs.filterMap id).map (·.1)) = some T := hTl
+  simp only [Bool.not_true, Bool.false_eq_true, if_false, procTlist, optChan_grids cs, hTl']
+  rw [mapMExcept_ok _
+    (fun (ch : Chan) => match ch with
+      | .arr tl cs' => T.map (stepAt tl cs')
+      | .absent => T.map fun _ => (0 : Rat)
+      | .const _ _ => [])
+    (cs.map optChan)
+    (by
+      intro a ha
+      obtain ⟨o, ho, rfl⟩ := List.mem_map.mp ha
+      cases o with
+      | none => rfl
+      | some c =>
+        have hc := (hmem c).mp ho
+        have hin : c.1 ∈ G' := (hmemG c.1).mpr (List.mem_map.mpr ⟨c, hc, rfl⟩)
+        simp only [optChan]
+        rw [fillW_eq_fill_grids w tol G' T c.1 c.2 htol hgr' hsep' hin hTl (Or.inl (hlen c hc))]
+        exact C14.fill_eq_step tol G' T c.1 c.2 htol hgr' hsep' hin hTl (Or.inl (hlen c hc)))]
+  simp only [List.map_map]
+  congr 2
+  apply List.map_congr_left
+  intro o _
+  cases o <;> rfl
+
 /-- pulses whose control Hamiltonians act on a common qubit do not overlap in time (start times `st0` in compile order) -/
 def PulseDisjoint (circular : Bool) (N : ℕ) (isQ : List (Instr Rat)) (st0 : List Rat) : Prop :=
   ∀ a b (ha : a < isQ.length) (hb : b < isQ.length), a ≠ b →
@@ -88,7 +208,14 @@ theorem pulses_product (circular : Bool) (N : ℕ) (enc : String × Int → ℕ)
       (SepAll tol (chans.map (·.1)) → ∃ (T : List Rat) (rows : List (List Rat)),
         (∀ zl w : Bool, fullCoeffsVW zl w tol (chans.map fun c => Chan.arr c.1 c.2) = .ok (T, rows)) ∧
         ordProdL (runAnalytically 0 ((groups.map (·.1)).map (labelHam circular N enc)) (slices T rows)) =
-          ordProd ((schedOrder isQ.length sch).map fun k => ws.getD k 1)) := by
+          ordProd ((schedOrder isQ.length sch).map fun k => ws.getD k 1) ∧
+        -- the same with EVERY control of the processor in the channel list: `all` = the labels of all controls, a control
+        -- that received no pulse is `Chan.absent` (row of zeros), the merged grid is the same
+        ∀ (all : List ℕ), all.Nodup → (∀ g ∈ groups, g.1 ∈ all) → ∃ rows' : List (List Rat),
+          (∀ zl w : Bool, fullCoeffsVW zl w tol
+            (all.map fun l => optChan (((groups.map (·.1)).zip chans).lookup l)) = .ok (T, rows')) ∧
+          ordProdL (runAnalytically 0 (all.map (labelHam circular N enc)) (slices T rows')) =
+            ordProd ((schedOrder isQ.length sch).map fun k => ws.getD k 1)) := by
   have hdz : ∀ i ∈ isQ.map (toC enc), (i.duration != 0) = true := by
     intro i hi
     obtain ⟨j, hj, rfl⟩ := List.mem_map.mp hi
@@ -208,29 +335,84 @@ theorem pulses_product (circular : Bool) (N : ℕ) (enc : String × Int → ℕ)
           obtain ⟨l, hl, rfl⟩ := List.mem_map.mp hc
           exact Or.inl (hspec l hl).2.2.1)
         hsep
-    refine ⟨_, _, fun zl w => (hshape zl w).trans ((hnorm zl).trans hfull), ?_⟩
     have hcomp := schedJ_compatible circular N enc henc isQ st0 σ hσ hsorted hpos hdisj
-    have key := channels_sliceProd (labelHam circular N enc) thr Gen.concatSrc.cat.padTol hthr hτ pm final ms hms ls
-      hlsne hnd J hJl hch hcomp
-    simp only at key
-    rw [key, ordProd_eq_ordProdL]
-    congr 1
-    rw [hJdef]
-    unfold schedJ
-    rw [List.map_map]
-    apply List.map_congr_left
-    intro k hk
-    have hk' : k < isQ.length := List.mem_range.mp (hσ.subset hk)
-    obtain ⟨hlen, hget⟩ := mapM_some_get _ (isQ.map castI) ws hws
-    rw [List.length_map] at hlen
-    have hkw : k < ws.length := by omega
-    have := hget k (by rw [List.length_map]; exact hk') hkw
-    rw [List.getElem_map] at this
-    simp only [Function.comp]
-    rw [List.getD_eq_getElem?_getD (l := ws), List.getElem?_eq_getElem hkw, Option.getD_some]
-    have ek : isQ.getD k dfltI = isQ[k] := by
-      rw [List.getD_eq_getElem?_getD, List.getElem?_eq_getElem hk']; rfl
-    rw [ek]
-    exact (instrPropExp_gen circular N enc henc isQ[k] (st0.getD k 0) ws[k] this).symm
+    -- the product of the generators' exponentials in scheduled order is the product of the `ws`
+    have hprodJ : ordProdL (J.map fun j => MatExp.evolve (j.gen (labelHam circular N enc)) ((j.d : ℚ) : ℝ)) =
+        ordProd (σ.map fun k => ws.getD k 1) := by
+      rw [ordProd_eq_ordProdL]
+      congr 1
+      rw [hJdef]
+      unfold schedJ
+      rw [List.map_map]
+      apply List.map_congr_left
+      intro k hk
+      have hk' : k < isQ.length := List.mem_range.mp (hσ.subset hk)
+      obtain ⟨hlen, hget⟩ := mapM_some_get _ (isQ.map castI) ws hws
+      rw [List.length_map] at hlen
+      have hkw : k < ws.length := by omega
+      have := hget k (by rw [List.length_map]; exact hk') hkw
+      rw [List.getElem_map] at this
+      simp only [Function.comp]
+      rw [List.getD_eq_getElem?_getD (l := ws), List.getElem?_eq_getElem hkw, Option.getD_some]
+      have ek : isQ.getD k dfltI = isQ[k] := by
+        rw [List.getD_eq_getElem?_getD, List.getElem?_eq_getElem hk']; rfl
+      rw [ek]
+      exact (instrPropExp_gen circular N enc henc isQ[k] (st0.getD k 0) ws[k] this).symm
+    refine ⟨_, _, fun zl w => (hshape zl w).trans ((hnorm zl).trans hfull), ?_, ?_⟩
+    · have key := channels_sliceProd (labelHam circular N enc) thr Gen.concatSrc.cat.padTol hthr hτ pm final ms hms ls
+        hlsne hnd J hJl hch hcomp
+      simp only at key
+      rw [key, hprodJ]
+    · intro all hall hsub
+      have hsub' : ∀ l ∈ ls, l ∈ all := by
+        intro l hl
+        obtain ⟨g, hgm, rfl⟩ := List.mem_map.mp hl
+        exact hsub g hgm
+      have hcs : (all.map fun l => optChan ((ls.zip chans).lookup l)) =
+          (all.map fun l => if l ∈ ls then some (compiledJ thr Gen.concatSrc.cat.padTol pm final ms J l) else none).map
+            optChan := by
+        rw [List.map_map]
+        apply List.map_congr_left
+        intro l _
+        simp only [Function.comp, hchansdef, lookup_zip_map]
+      refine ⟨(all.map fun l => if l ∈ ls then some (compiledJ thr Gen.concatSrc.cat.padTol pm final ms J l) else none).map
+        (rowOf (sortU (chans.map (·.1)).flatten)), fun zl w => ?_, ?_⟩
+      · rw [hcs]
+        exact fullCoeffsVW_mixed zl w tol htol chans _
+          (by
+            intro c
+            constructor
+            · intro h
+              obtain ⟨l, _, hl⟩ := List.mem_map.mp h
+              by_cases hls' : l ∈ ls
+              · rw [if_pos hls'] at hl
+                exact List.mem_map.mpr ⟨l, hls', Option.some.inj hl⟩
+              · rw [if_neg hls'] at hl; exact absurd hl (by simp)
+            · intro h
+              obtain ⟨l, hl, rfl⟩ := List.mem_map.mp h
+              exact List.mem_map.mpr ⟨l, hsub' l hl, by rw [if_pos hl]⟩)
+          (by simpa [hchansdef] using hlsne)
+          (by
+            intro c hc
+            obtain ⟨l, hl, rfl⟩ := List.mem_map.mp hc
+            obtain ⟨h1, h2, _, h4, _⟩ := hspec l hl
+            exact ⟨h2, h1, h4⟩)
+          (by
+            intro c hc
+            obtain ⟨l, hl, rfl⟩ := List.mem_map.mp hc
+            exact (hspec l hl).2.2.1)
+          hsep
+      · have key := channels_sliceProd_all (labelHam circular N enc) thr Gen.concatSrc.cat.padTol hthr hτ pm final ms hms
+          all hall ls hlsne hsub' J hJl hch hcomp
+        simp only at key
+        rw [← hprodJ, ← key]
+        congr 3
+        rw [List.map_map]
+        apply List.map_congr_left
+        intro l _
+        simp only [Function.comp]
+        by_cases hl : l ∈ ls
+        · rw [if_pos hl, if_pos hl]; rfl
+        · rw [if_neg hl, if_neg hl]; rfl
 
 end QipVerif.SpinChain
